@@ -143,6 +143,7 @@ pub fn worker_main(check: &str, tier: Tier, base: u64, start: u64, stride: u64, 
     }
     writeln!(f, "S {}", serde_json::to_string(&sum).unwrap()).ok();
     writeln!(f, "D").ok();
+    let _ = std::fs::remove_file(format!("/dev/shm/scsim-current-{}.json", std::process::id()));
     drop(scratch);
     crate::exec::cleanup_process_scratch();
 }
@@ -190,6 +191,7 @@ pub struct CheckArgs {
 pub struct CheckResult {
     pub summary: Summary,
     pub crashes: Vec<(u64, String)>,
+    pub crash_traces: Vec<(u64, Trace)>,
     pub wall_s: f64,
 }
 
@@ -206,6 +208,7 @@ pub fn run_check(a: &CheckArgs) -> CheckResult {
     std::fs::create_dir_all(&dir).expect("results dir");
     let workers = a.workers.max(1).min(a.runs.max(1));
     let mut crashes: Vec<(u64, String)> = vec![];
+    let mut crash_traces: Vec<(u64, Trace)> = vec![];
     let mut total = Summary::default();
     // (worker id, start index)
     let mut pending: Vec<(u64, u64, u32)> = (0..workers).map(|w| (w, w, 0)).collect();
@@ -236,6 +239,7 @@ pub fn run_check(a: &CheckArgs) -> CheckResult {
         }
         let mut next = vec![];
         for (w, start, out, mut child) in children {
+            let pid = child.id();
             // watchdog: a worker whose current run does not advance for 120 s is stuck
             let mut last_seen = None;
             let mut last_change = std::time::Instant::now();
@@ -270,6 +274,13 @@ pub fn run_check(a: &CheckArgs) -> CheckResult {
                 if status.is_some() {
                     crashes.push((at, format!("worker process died: {:?}", status)));
                 }
+                let cur = PathBuf::from(format!("/dev/shm/scsim-current-{}.json", pid));
+                if let Ok(b) = std::fs::read(&cur) {
+                    if let Ok(tr) = serde_json::from_slice::<Trace>(&b) {
+                        crash_traces.push((at, tr));
+                    }
+                }
+                let _ = std::fs::remove_file(&cur);
                 // runs between the last checkpoint and the crash are re-done by the restarted
                 // worker, except the crashing one
                 let resume = match wo.runs_in_summary_upto {
@@ -292,7 +303,7 @@ pub fn run_check(a: &CheckArgs) -> CheckResult {
         }
     }
     let _ = std::fs::remove_dir_all(&dir);
-    CheckResult { summary: total, crashes, wall_s: t0.elapsed().as_secs_f64() }
+    CheckResult { summary: total, crashes, crash_traces, wall_s: t0.elapsed().as_secs_f64() }
 }
 
 // ---------------------------------------------------------------------------------------------
@@ -344,7 +355,7 @@ pub struct ReplayFile {
     pub trace: Trace,
 }
 
-pub fn replay_file(path: &Path) -> i32 {
+pub fn replay_inner(path: &Path) -> i32 {
     crate::install_quiet_panic_hook();
     let text = match std::fs::read_to_string(path) {
         Ok(t) => t,
@@ -377,6 +388,39 @@ pub fn replay_file(path: &Path) -> i32 {
     }
     println!("did not reproduce ({} other findings)", fs.len());
     0
+}
+
+/// Replays run in a child process: a crash of the process (abort, stack overflow) is then an
+/// observable outcome instead of the end of the replay command.
+pub fn replay_file(path: &Path) -> i32 {
+    let rf: Option<ReplayFile> = std::fs::read_to_string(path).ok().and_then(|t| serde_json::from_str(&t).ok());
+    let out = match std::process::Command::new(std::env::current_exe().unwrap()).arg("replay-inner").arg(path).output() {
+        Ok(o) => o,
+        Err(e) => {
+            eprintln!("cannot start replay: {e}");
+            return 2;
+        }
+    };
+    print!("{}", String::from_utf8_lossy(&out.stdout));
+    match out.status.code() {
+        Some(0) => 0,
+        Some(1) => 1,
+        Some(2) => 2,
+        other => {
+            // killed by a signal or aborted
+            match rf {
+                Some(rf) if rf.clause == "process-crash" => {
+                    println!("reproduced: the process running the trace died ({:?})", out.status);
+                    println!("VIOLATION property={} replay={}", rf.property, path.display());
+                    1
+                }
+                _ => {
+                    println!("HARNESS ERROR: replay process ended with {:?} ({:?})", other, out.status);
+                    2
+                }
+            }
+        }
+    }
 }
 
 // ---------------------------------------------------------------------------------------------
@@ -438,11 +482,42 @@ pub fn check_main(a: CheckArgs) -> i32 {
     // crashes of whole worker processes are C14 material
     for (idx, why) in &res.crashes {
         let line = format!("worker crash at run index {idx} (seed {}): {why}", a.seed.wrapping_add(*idx));
-        if a.check == "C14" {
-            println!("VIOLATION property=C14 replay=seed:{}", a.seed.wrapping_add(*idx));
-            exit = 1;
-        }
+        println!("{line}");
         lines.push(line);
+        let tr = res.crash_traces.iter().find(|(i, _)| i == idx).map(|x| x.1.clone());
+        match tr {
+            Some(trace) => {
+                let _ = std::fs::create_dir_all(&replays);
+                let path = replays.join(format!("process-crash-{}.json", a.seed.wrapping_add(*idx)));
+                let rf = ReplayFile {
+                    format: 1,
+                    property: "C14".into(),
+                    clause: "process-crash".into(),
+                    site: "process-crash".into(),
+                    seed: a.seed.wrapping_add(*idx),
+                    index: *idx,
+                    tier: a.tier.name().into(),
+                    detail: why.clone(),
+                    minimised: false,
+                    trace,
+                };
+                std::fs::write(&path, serde_json::to_string_pretty(&rf).unwrap()).expect("write replay");
+                if matches_known(&known, "C14", "process-crash", why).is_some() {
+                    continue;
+                }
+                if a.check == "C14" {
+                    println!("VIOLATION property=C14 replay={}", path.display());
+                    confirmed_violations += 1;
+                    exit = 1;
+                }
+            }
+            None => {
+                println!("HARNESS ERROR: a worker died and left no trace of the case it was running");
+                if exit == 0 {
+                    exit = 2;
+                }
+            }
+        }
     }
     for v in &s.violations {
         if let Some(k) = matches_known(&known, &v.finding.prop, &v.finding.clause, &v.site) {
@@ -534,6 +609,9 @@ pub fn check_main(a: CheckArgs) -> i32 {
         res.wall_s,
         s.cross.iter().map(|(k, v)| format!("{k}×{}", v.0)).collect::<Vec<_>>()
     );
+    for (k, v) in &s.cross {
+        println!("  cross-finding {k} ×{}: e.g. {}", v.0, v.1.chars().take(300).collect::<String>());
+    }
     if exit == 0 {
         println!("PASS property={} (held on everything explored)", a.check);
     }
